@@ -481,10 +481,43 @@ class Boom(Exception):
     pass
 
 
-def misbehave(kind):
+class _Truthy:
+    def __bool__(self):
+        return True
+
+
+class _Flag(int):
+    pass
+
+
+def _attr_error():
+    return None.free  # a genuine AttributeError from inside the callback
+
+
+def _raiser(exc):
     def raise_():
-        raise Boom("injected callback failure")
-    return [raise_, lambda: None, lambda: 1, lambda: "yes", raise_, lambda: 0.0][kind % 6]
+        raise exc("injected callback failure")
+    return raise_
+
+
+# kind -> (label, behaviour). Kinds 0-5 are the original six (replay files refer to them by
+# number); the others widen the two classes the property names: "raises" (any exception type)
+# and "returns a non-boolean" (anything that is not a Python bool, truthy or falsy).
+FAULT_KINDS = [
+    ("raise", _raiser(Boom)), ("return_None", lambda: None), ("return_1", lambda: 1), ("return_str", lambda: "yes"),
+    ("raise", _raiser(Boom)), ("return_float", lambda: 0.0),
+    ("raise_AttributeError", _attr_error), ("raise_TypeError", _raiser(TypeError)), ("raise_ValueError", _raiser(ValueError)),
+    ("raise_KeyError", _raiser(KeyError)), ("raise_ZeroDivisionError", lambda: 1 // 0), ("raise_StopIteration", _raiser(StopIteration)),
+    ("return_0", lambda: 0), ("return_2", lambda: 2), ("return_list", lambda: [True]), ("return_tuple", lambda: (True,)),
+    ("return_truthy_object", lambda: _Truthy()), ("return_int_subclass", lambda: _Flag(1)), ("return_1.0", lambda: 1.0),
+    ("return_bytes", lambda: b"\x01"), ("raise_RuntimeError", _raiser(RuntimeError)), ("raise_AssertionError", _raiser(AssertionError)),
+    ("raise_IndexError", _raiser(IndexError)), ("return_NotImplemented", lambda: NotImplemented),
+]
+RAISING = [i for i, (n, _) in enumerate(FAULT_KINDS) if n.startswith("raise")]
+
+
+def misbehave(kind):
+    return FAULT_KINDS[kind % len(FAULT_KINDS)][1]
 
 
 def c20_twins(scn):
@@ -533,7 +566,7 @@ def c20_twins(scn):
             if hit:
                 if faulty:
                     fired[0] += 1
-                    return misbehave(0 if kind % 2 == 0 else 4)
+                    return misbehave(RAISING[kind % len(RAISING)])
                 return lambda: False
             return None
         return gf
@@ -679,8 +712,10 @@ def do_check(prop, tier):
         if nt:
             nontrivial.add(json.dumps(scn, sort_keys=True))
         if prop == "C20":
-            fk = ["raise", "return_None", "return_1", "return_str", "raise", "return_float"][int(scn["params"]["fault_kind"]) % 6]
+            fk = FAULT_KINDS[int(scn["params"]["fault_kind"]) % len(FAULT_KINDS)][0]
             tgt = "is_satisfied" if int(scn["params"]["fault_target"]) == 2 else "validity"
+            if tgt == "is_satisfied":  # the goal predicate only ever raises (that is what the property names)
+                fk = FAULT_KINDS[RAISING[int(scn["params"]["fault_kind"]) % len(RAISING)]][0]
             mode = "kth_call" if int(scn["params"]["fault_kth"]) > 0 else "region"
             k = f"{tgt}/{mode}/{fk}"
             fault_counts[k] = fault_counts.get(k, 0) + aux
@@ -727,7 +762,7 @@ def do_check(prop, tier):
     wall = time.time() - t0
     rule = {
         "C19": "scenario i (6 problem-definition variants x 4 planners round-robin, generated worlds / parameters / seeds restricted to what the Python API can express, fixed goal sample, budgets as time limits under the shared virtual clock of 1 ms per read) is executed by the Rust core (reference) and through oxmpl_py (system under test); RRT / RRT-Connect / RRT* results compared bit for bit incl. error texts, PRM for soundness w.r.t. the Python callbacks; plus the wrapper-constructor lattice (ValueError iff core Err, distance / extent / stored values bit-equal); distinct = distinct scenario or case; non-trivial = a path was returned (planner scenarios) or the case was evaluated to agreement (wrapper cases)",
-        "C20": "scenario i gets a fault plan: the validity callback (or the goal's is_satisfied) raises / returns None / returns 1 / returns a str / returns a float for every state inside a fault ball placed between start and goal, or at its k-th call (k up to 256); it is run twice through oxmpl_py, once failing and once returning False at exactly those calls, and (region faults) a third time by the Rust core with the fault ball as an obstacle; results must be identical and no returned path may contain a state on which the callback failed; non-trivial = the fault actually fired at least once during planning",
+        "C20": "scenario i gets a fault plan: the validity callback (or the goal's is_satisfied) raises (Boom, AttributeError, TypeError, ValueError, KeyError, ZeroDivisionError, StopIteration, RuntimeError, AssertionError, IndexError) / returns a non-boolean (None, 0, 1, 2, 1.0, 0.0, str, bytes, list, tuple, an object with __bool__, an int subclass, NotImplemented) for every state inside a fault ball placed between start and goal, or at its k-th call (k up to 256); it is run twice through oxmpl_py, once failing and once returning False at exactly those calls, and (region faults) a third time by the Rust core with the fault ball as an obstacle; results must be identical and no returned path may contain a state on which the callback failed; non-trivial = the fault actually fired at least once during planning",
     }[prop]
     ev = {
         "property_id": prop, "tier": tier, "seed": seed,
